@@ -21,6 +21,13 @@ STATES = {
     'non_object_string': b'"hello"',
     'servers_not_object': b'{"mcpServers": 5, "keep": 1}',
     'servers_null': b'{"mcpServers": null}',
+    # a rewrite that SHRINKS the file: a long adeu entry (local mode: interpreter path, cwd), widely formatted
+    'valid_long_adeu_wide': json.dumps({'mcpServers': {'adeu': {'command': '/very/long/path/to/a/virtual/environment/bin/python3.12', 'args': ['-m', 'adeu.server', '--verbose'] * 6,
+                                                                'cwd': '/home/someone/projects/contracts/tools/adeu-checkout'}, 'other': {'command': 'x'}}, 'theme': 'dark'}, indent=8).encode(),
+    # a second run on the same day: `adeu init` ran before (it left its backup), then the user changed / broke the file by hand
+    'second_run_same_day_edited': (json.dumps({'mcpServers': {'other': {'command': 'x'}}}, indent=2).encode(),
+                                   json.dumps({'mcpServers': {'other': {'command': 'x'}, 'added_by_hand': {'command': 'y'}}, 'theme': 'light'}, indent=2).encode()),
+    'second_run_same_day_broken': (json.dumps({'mcpServers': {'other': {'command': 'x'}}}, indent=2).encode(), b'{"mcpServers": {"other": {"command": "x"}}, "oops": }'),
 }
 
 def random_state(rng):
@@ -112,9 +119,17 @@ def run_case(args):
     home = tempfile.mkdtemp(prefix='c18_')
     try:
         cdir = os.path.join(home, '.config', 'Claude'); cfg = os.path.join(cdir, 'claude_desktop_config.json')
-        if prev is not None:
-            os.makedirs(cdir); open(cfg, 'wb').write(prev)
         tracefile = os.path.join(home, 'trace.txt')
+        if isinstance(prev, tuple):      # history: an earlier fault-free run on prev[0], then the file is replaced by prev[1]
+            os.makedirs(cdir); open(cfg, 'wb').write(prev[0])
+            pid0 = os.fork()
+            if pid0 == 0:
+                try: child(home, local, None, tracefile + '0')
+                finally: os._exit(99)
+            os.waitpid(pid0, 0)
+            prev = prev[1]; open(cfg, 'wb').write(prev)
+        elif prev is not None:
+            os.makedirs(cdir); open(cfg, 'wb').write(prev)
         pid = os.fork()
         if pid == 0:
             try: child(home, local, plan, tracefile)
@@ -243,7 +258,7 @@ def run(tier, seed):
         distinct.add((r['state'], r['local'], tuple(r['plan']) if r['plan'] else None))
         if r['plan']: dist[r['plan'][1]] += 1
         if r['fail']:
-            ck.violation('oracle', {'state': r['state'], 'previous': (states[r['state']] or b'').decode('utf-8', 'replace') if states[r['state']] is not None else None,
+            ck.violation('oracle', {'state': r['state'], 'previous': ((states[r['state']][1] if isinstance(states[r['state']], tuple) else states[r['state']]) or b'').decode('utf-8', 'replace') if states[r['state']] is not None else None,
                                     'local': r['local'], 'fault': r['plan'], 'exit': r['exit'], 'trace': r['trace'], 'files_after': r['files']}, r['fail'])
         tr = tuple(e for e in r['trace'] if e in ('copy', 'open_w', 'write'))
         # a planned fault is logged before it strikes: the struck effect may or may not have happened in the model
